@@ -84,6 +84,10 @@ CLAIMED = {
             "each output block with the requested type, for ConvBlock (both orders), ResNet, DilResNet, UNet.",
             "Assumes the eigh contract and the max-pool unique-maximiser precondition (both discharged/stated in C08); d=2 N=4 (8), d=3 N<=4; depth<=2, 1 block, "
             "1-2 downsamples; cells sampled (pairwise core + seeded).", "4/C07"),
+    "C20": (JX, "shape inference on the traced real models (structural half, no solver) + symbolic execution with the scalar CNN as an uninterpreted function, z3 (QF_UFLRA) for component placement (value half)",
+            "For each enumerated constructor cell the traced output has exactly the requested types, order, channel counts, spatial shape, D and flags (exact for all "
+            "inputs: JAX shapes are value-independent); in conventional mode z3 proves every component of every type is the CNN output channel off_t + c*D^k + i.",
+            "Structural half involves no SMT query (stated in evidence); BatchNorm off; cells sampled (pairwise core + seeded).", "4/C20"),
 }
 
 NOT_YET = {}
